@@ -30,6 +30,8 @@ pub struct Case {
     /// (codes A I P add, a i p remove) and `always/ifreq/prefixes` hold the lists it must end up with
     pub req_ops: Vec<(char, String)>,
     pub method: String,
+    /// HTTP version of the submitted request: 9, 10, 11, 2 or 3
+    pub version: u8,
     /// request target as given to `http::Uri` (origin-form or absolute-form)
     pub uri: String,
     /// headers in arrival order
@@ -115,8 +117,8 @@ impl Case {
         };
         let hdrs = if self.headers.is_empty() { ".".to_string() } else { self.headers.iter().map(|(n, v)| format!("{}:{}", hx(n.as_bytes()), hx(v))).collect::<Vec<_>>().join(",") };
         format!(
-            "{} {} {} {} {} {} {} {} {} {} {} {} {} {} {} {} {} {}",
-            self.s3 as u8, self.fold as u8, hx(self.region.as_bytes()), hx(self.service.as_bytes()), self.now.0, self.now.1,
+            "{} {} {} {} {} {} {} {} {} {} {} {} {} {} {} {} {} {} {}",
+            self.version, self.s3 as u8, self.fold as u8, hx(self.region.as_bytes()), hx(self.service.as_bytes()), self.now.0, self.now.1,
             hx_list(&self.always), hx_list(&self.ifreq), hx_list(&self.prefixes), self.vec_reqs as u8, hx(self.method.as_bytes()),
             hx(self.uri.as_bytes()), hdrs, hx(&self.body),
             match &self.ready_err { None => "R".to_string(), Some(e) => perr(e) },
@@ -126,13 +128,15 @@ impl Case {
     }
 
     pub fn from_line(l: &str) -> Case {
-        let f: Vec<&str> = l.split(' ').collect();
+        let all: Vec<&str> = l.split(' ').collect();
+        let version: u8 = all[0].parse().unwrap();
+        let f: Vec<&str> = all[1..].to_vec();
         let s = |x: &str| String::from_utf8(unhx(x)).unwrap();
         let list = |x: &str| -> Vec<String> { if x == "." { vec![] } else { x.split(',').map(|y| String::from_utf8(unhx(y)).unwrap()).collect() } };
         let perr = |x: &str| -> ProvErr { if x == "F" { ProvErr::Foreign } else { ProvErr::Sig(KINDS.iter().find(|k| **k == &x[1..]).copied().unwrap()) } };
         Case {
             s3: f[0] == "1", fold: f[1] == "1", region: s(f[2]), service: s(f[3]), now: (f[4].parse().unwrap(), f[5].parse().unwrap()),
-            always: list(f[6]), ifreq: list(f[7]), prefixes: list(f[8]), vec_reqs: f[9] == "1", req_ops: vec![], method: s(f[10]), uri: s(f[11]),
+            always: list(f[6]), ifreq: list(f[7]), prefixes: list(f[8]), vec_reqs: f[9] == "1", req_ops: vec![], method: s(f[10]), version, uri: s(f[11]),
             headers: if f[12] == "." { vec![] } else { f[12].split(',').map(|h| { let (n, v) = h.split_once(':').unwrap(); (s(n), unhx(v)) }).collect() },
             body: unhx(f[13]),
             ready_err: if f[14] == "R" { None } else { Some(perr(f[14])) },
